@@ -9,7 +9,7 @@
    and the first merge emptied the pending-overloads dict of every stubs scope it went through.
    Executable definitions only; proofs are in Proofs/C19_reload.v. *)
 From Coq Require Import List ZArith String Bool Arith.
-From Verif Require Import Lib.Sexp Model.C19_merge.
+From Verif Require Import Lib.Sexp Model.C19_merge Model.C19_seq.
 Import ListNotations.
 Open Scope string_scope.
 Open Scope list_scope.
@@ -165,5 +165,6 @@ Definition run_C19 (s : sexp) : sexp :=
       end
   | SList [SStr "settle"; t] =>
       match dec_tree t with Some t' => SList [SStr "ok"; enc_tree (settle t')] | None => bad_input end
+  | SList (SStr "load_seq" :: _) => run_seq s
   | _ => C19_merge.run_C19 s
   end.
